@@ -68,7 +68,31 @@ func (c *Ctx) fsModel() *fsModel {
 	m.fPath = p.Field("pkg/storage/file", "mbox", "path")
 	m.fRoot = p.OptField("pkg/storage/file", "Store", "mailPath")
 	m.rawPath = p.Method("pkg/storage/file", "Message", "rawPath")
-	m.writeIdx = p.Method("pkg/storage/file", "mbox", "writeIndex")
+	m.writeIdx = p.OptMethod("pkg/storage/file", "mbox", "writeIndex")
+	if m.writeIdx == nil {
+		// by role: the method of mbox that encodes the index (creates the gob encoder), when the
+		// old writeIndex was split into "save a non-empty index" and "drop the empty mailbox"
+		var cands []*ssa.Function
+		for _, fn := range pkgFuncs(p, "pkg/storage/file") {
+			if fn.Parent() != nil || fn.Signature.Recv() == nil {
+				continue
+			}
+			has := false
+			eng.EachInstr(fn, func(in ssa.Instruction) {
+				if call, ok := in.(*ssa.Call); ok && eng.CalleeName(call.Common()) == "encoding/gob.NewEncoder" {
+					has = true
+				}
+			})
+			if has {
+				cands = append(cands, fn)
+			}
+		}
+		if len(cands) == 1 {
+			m.writeIdx = cands[0]
+		} else {
+			p.Unresolved = append(p.Unresolved, "pkg/storage/file.mbox.writeIndex")
+		}
+	}
 	m.removeDir = p.Method("pkg/storage/file", "mbox", "removeDir")
 	if m.fIndex == nil || m.fPath == nil || m.rawPath == nil || m.writeIdx == nil || m.removeDir == nil {
 		return nil
